@@ -686,38 +686,7 @@ func vfC24Diagnose2(st *vfStmt, want, got []vfRow, selectedNothing bool) string 
 	if st.kind != "update" {
 		return ""
 	}
-	if st.projCols != nil {
-		if want == nil {
-			return "update-through-project-blanks-other-columns"
-		}
-		// the table equals the model once the columns outside the project are blanked in updated rows
-		cols := vfColNames(st.target.cols)
-		have := map[string]int{}
-		for _, r := range got {
-			have[vfTupleKey(r, cols)]++
-		}
-		ok := true
-		for _, r := range want {
-			if have[vfTupleKey(r, cols)] > 0 {
-				have[vfTupleKey(r, cols)]--
-				continue
-			}
-			b := vfCloneRow(r)
-			for _, c := range cols {
-				if !slices.Contains(st.projCols, c) {
-					b[c] = EmptyStr
-				}
-			}
-			if have[vfTupleKey(b, cols)] > 0 {
-				have[vfTupleKey(b, cols)]--
-			} else {
-				ok = false
-			}
-		}
-		if ok {
-			return "update-through-project-blanks-other-columns"
-		}
-	}
+	// (the update-through-project defect is repaired, commit 9b34cd1: no label for it any more)
 	if st.movesKey {
 		return "update-revisits-rows-moved-in-iteration-index"
 	}
